@@ -114,7 +114,10 @@ pub fn run_one(prog: &[(usize, usize)], cuts: &[(usize, Cut)]) -> Option<(String
                 queued += 1;
             }
         }
-        let r = probe.write(&mut sink);
+        let r = match std::panic::catch_unwind(std::panic::AssertUnwindSafe(|| probe.write(&mut sink))) {
+            Ok(r) => r,
+            Err(e) => return Some(("write:panic".into(), format!("write_to_stream panicked: {}", crate::slots::panic_msg(&e)))),
+        };
         call += 1;
         if sink.got.len() > expected.len() || sink.got[..] != expected[..sink.got.len()] {
             let at = sink.got.iter().zip(expected.iter()).position(|(a, b)| a != b).unwrap_or(expected.len());
@@ -202,6 +205,7 @@ fn positions(total: usize, prog: &[(usize, usize)]) -> Vec<usize> {
 }
 
 pub fn run(args: &Args) {
+    std::panic::set_hook(Box::new(|_| {}));
     let thorough = args.thorough();
     let mut part = Part::new("C01", "writeprobe", "seqx", "model_checking", &args.tier);
     part.rule = "programs of 0-3 real frames (8 B to 9 KB) queued before chosen write calls on a real output buffer (starting with the protocol header), written through the real write_to_stream into a scripted transport: every placement of up to 2 (thorough: 3) cuts over every byte offset (streams <= 300 B) or the boundary menu, each cut a short accept, a would-block or (one per script) an error. After every call: transport content is a prefix of header+frames in order, accepted+pending = queued, a call only returns with data pending after a would-block. Non-trivial: at least one cut.".into();
